@@ -152,33 +152,54 @@ int asm_assemble_string_counting_chunks(assemblyline_t al, char *str,
   return EXIT_SUCCESS;
 }
 
-static void *asm_mmap_file(char *asm_file, size_t *str_len) {
+/**
+ * reads the contents of @param asm_file into a heap-allocated, NUL-terminated
+ * string. Returns NULL on failure.
+ */
+static char *asm_read_file(char *asm_file) {
   // open file for reading
-  int fd = open(asm_file, O_RDONLY, S_IRUSR | S_IRUSR);
+  int fd = open(asm_file, O_RDONLY);
 
   // NOLINTNEXTLINE
-  FAIL_SYS(fd == -1, "failed to open file\n", MAP_FAILED);
+  FAIL_SYS(fd == -1, "failed to open file\n", NULL);
   struct stat file_stat;
-
-  // NOLINTNEXTLINE
-  FAIL_SYS(fstat(fd, &file_stat), "failed to get file stats\n", MAP_FAILED);
-  // map file contents to a string
-  *str_len = file_stat.st_size;
-  void *str = mmap(NULL, *str_len, PROT_READ, MAP_PRIVATE, fd, 0);
+  char *str = NULL;
+  if (fstat(fd, &file_stat) == 0)
+    str = malloc((size_t)file_stat.st_size + 1);
+  if (str == NULL) {
+    fprintf(stderr, "assembyline: failed to read file\n");
+    perror("error ");
+    close(fd);
+    return NULL;
+  }
+  // copy file contents to a string
+  size_t str_len = (size_t)file_stat.st_size;
+  size_t pos = 0;
+  while (pos < str_len) {
+    ssize_t got = read(fd, str + pos, str_len - pos);
+    if (got < 0) {
+      fprintf(stderr, "assembyline: failed to read file\n");
+      perror("error ");
+      free(str);
+      close(fd);
+      return NULL;
+    }
+    if (got == 0)
+      break;
+    pos += (size_t)got;
+  }
   close(fd);
+  str[pos] = '\0';
   return str;
 }
 
 int asm_assemble_file_counting_chunks(assemblyline_t al, char *asm_file,
                                       int chunk_size, int *dest) {
 
-  size_t str_len = 0;
-  char *str = asm_mmap_file(asm_file, &str_len);
-  // NOLINTNEXTLINE
-  FAIL_SYS(str == MAP_FAILED, "mmap failed to read file\n", EXIT_FAILURE);
+  char *str = asm_read_file(asm_file);
+  FAIL_IF(str == NULL);
   int exit = asm_assemble_string_counting_chunks(al, str, chunk_size, dest);
-  // free mmap memory used for reading file
-  FAIL_SYS(munmap((void *)str, str_len) == -1, "munmap failed\n", EXIT_FAILURE);
+  free(str);
   return exit;
 }
 
@@ -188,13 +209,10 @@ int assemble_file(assemblyline_t al, char *asm_file) {
 
 int asm_assemble_file(assemblyline_t al, char *asm_file) {
 
-  size_t str_len = 0;
-  const char *str = asm_mmap_file(asm_file, &str_len);
-  // NOLINTNEXTLINE
-  FAIL_SYS(str == MAP_FAILED, "mmap failed to read file\n", EXIT_FAILURE);
+  char *str = asm_read_file(asm_file);
+  FAIL_IF(str == NULL);
   int exit = asm_assemble_str(al, str);
-  // free mmap memory used for reading file
-  FAIL_SYS(munmap((void *)str, str_len) == -1, "munmap failed\n", EXIT_FAILURE);
+  free(str);
   return exit;
 }
 
